@@ -369,13 +369,13 @@ CLAIMS["C15"] = dict(
 
 # Rules added late in the build round (DESIGN.md 7.2 / 7.3); appended to the claims above.
 ADDENDA = {
-    "C01": " A signature of the greatest legal length (73 bytes with its sighash byte) is written into a pre-segwit scriptSig, not refused by an assertion.",
+    "C01": " A signature of the greatest legal length (73 bytes with its sighash byte) is written into a pre-segwit scriptSig, not refused by an assertion. The lock reported for a path is the later of its parts' locks (lock-merge table shared with C03).",
     "C02": " The satisfier's template comparison also has a needs-clause (the parts of the template found are among the canonical one's). Every leaf builder of the satisfaction template emits placeholders only for what the look-ups it consulted can deliver: with a satisfier holding exactly one look-up answer (or a key-hash signature together with the look-up that names the key), whatever stack the builder returns is completed by Placeholder::satisfy_self from that same satisfier, raw key hashes in tapscript leaves included (shared with C17 / C11). The lock merge of one spending path keeps two equal locks available (table shared with C03).",
     "C03": " The duplicate-key / mixed-time-lock / malleability predicates the non-malleable satisfier's guarantee rests on are the defect-predicate tables of C12 (shared). PsbtInputSatisfier::check_older / check_after report every lock the transaction meets (BIP-68 / BIP-65 tables shared with C14): a lock wrongly reported unmet under a signed root makes the non-malleable chooser spend a signature.",
     "C04": " Every typed constructor (Miniscript::pk_k / pk_h / expr_raw_pkh / multi / ...) attaches the type and extra data the type checker computes for the same node (shared with C05 / C06). ExtData::pk_cost - the other size prediction - is the template's length across the OP_16 / one-byte-push boundary of k and n (shared with C09).",
     "C07": " Concrete::lift of an n-ary conjunction is the n-of-n threshold over all of its children (three conjuncts evaluated).",
     "C08": " Policy::is_safe_nonmalleable - the gate of every compile entry point - reports a policy as safe only if it is false when every key is withheld and everything else granted (TRIVIAL is not safe), on every policy of a bounded family (constants, key, hash, lock under and / or / thresh to depth two). The candidate filter ScriptContext::check_local_validity fails exactly when one of the context's four checks fails (shared with C07). n-ary and / or policies are refused, not compiled with their tail dropped. Every per-context resource check is also evaluated on numbers across its limit (tapscript: witness items plus execution stack against 1000).",
-    "C09": " ExtData::multi_a / sortedmulti_a pk_cost equals the script length exactly on a (k, n) grid across the number-push breakpoints. The P2SH scriptSig limit bounds the satisfaction plus the push of the redeem script: by the compared figure (names) and on a numeric grid across 1650. Every per-context limit check (script size, opcode count, witness items, scriptSig size, tapscript stack sum) is evaluated on a numeric grid across its boundary, not only by the names in the compared term.",
+    "C09": " ExtData::multi_a / sortedmulti_a pk_cost equals the script length exactly on a (k, n) grid across the number-push breakpoints. The P2SH scriptSig limit bounds the satisfaction plus the push of the redeem script: by the compared figure (names) and on a numeric grid across 1650. Every per-context limit check (script size, opcode count, witness items, scriptSig size, tapscript stack sum) is evaluated on a numeric grid across its boundary, not only by the names in the compared term. The sizes a spending plan announces (witness_size, scriptsig_size) are compared with the byte counts of what Plan::satisfy builds (rules shared with C17; known finding: witness_size of wsh / sh-wsh omits the witness script).",
     "C10": " Descriptors built by a constructor rather than parsed (new_bare / new_sh / new_wsh over a key check, a key-hash check, multi, conjunctions) print as a text that parses back to an equal descriptor (known finding: bare c:pk_h prints as pkh(K)). Turning a descriptor whose keys are not of the BIP-388 placeholder form into a wallet policy is refused or gives a text that parses back. The alternate flag (`{:#}`) does not change a miniscript's text.",
     "C11": " The PSBT entry points taking an input index refuse an index beyond the input list (shared with C14). A 73-byte signature does not trip witness_to_scriptsig's assertion (shared with C17). Satisfaction::satisfy's expect(\"the same satisfier should manage to complete the template\") cannot fire (shared with C17). Every key translation whose context error is turned into a panic (expect_translator_err, expect / unwrap on translate_pk's result; enumerated over the MIR of non-test code) either targets NoChecks or uses a translator whose `pk`, evaluated on compressed / uncompressed / x-only / extended keys, never returns an uncompressed or x-only key unless given one. The taproot compilers' Huffman builder returns an error, not a panic, when the policy's odds make the tree deeper than 128 levels.",
     "C12": " Each defect predicate behind a validation switch (has_repeated_keys, has_mixed_timelocks, is_non_malleable, requires_sig, ...) is evaluated against its definition on a bounded family. TapTree::combine refuses exactly the depths a control block cannot prove (shared with C15). The context's key rule applies to the key of every key-bearing fragment, pk_h included (from_ast and the compiler rely on it alone). Tr::new accepts a tree only if every leaf passes the context's top-level checks (decision table over trees of 0..3 leaves, the failing leaf in every position).",
